@@ -201,5 +201,5 @@ def bounded_checks(tier, seed):
     res = json.loads(r.stdout)
     viol = [{"problem": x["detail"], "signature": x["signature"]} for x in res if x["reproduced"]]
     return [{"check": "real_git_fault_enumeration", "tool": "real git repository + real load_git/tmp_worktree, subprocess.run fault injection",
-             "bound": "3 refs (tag, branch with slash, unknown) x 3 body outcomes x static/inspected loading; interruption at each of the 5 git calls",
+             "bound": "3 refs (tag, branch with slash, unknown) x 3 body outcomes x static/inspected loading; a user branch that carries the temporary branch's name; interruption at each of the 5 git calls",
              "cases": 9 + 2 + 4 + 6, "failing": len(viol), "wall_s": round(time.time() - t0, 1), "violations": viol}]
